@@ -101,6 +101,16 @@ let process line =
       (match dec cs scan_p cap (z_of_int c) s (mk_ustream (bytes_of_hex hex)) with
        | Ok (s', i) -> "R ok pos=" ^ string_of_z i.s_pos ^ " good=" ^ b01 i.s_good ^ " eof=" ^ b01 i.s_eof ^ " |" ^ dump c s'
        | Err e -> "R err " ^ err_name e)
+  | "D" :: c :: hex :: _ ->
+      (* decode into a fresh object, then encode the decoded object again *)
+      let c = int_of_string c in
+      let hex = if hex = "-" then "" else hex in
+      (match dec cs scan_p cap (z_of_int c) (fresh cs (z_of_int c)) (mk_ustream (bytes_of_hex hex)) with
+       | Ok (s', i) ->
+           (match enc cs cap (z_of_int c) s' with
+            | Ok (s'', bytes) -> "D ok pos=" ^ string_of_z i.s_pos ^ " good=" ^ b01 i.s_good ^ " " ^ hex_of_bytes bytes ^ " |" ^ dump c s''
+            | Err e -> "D err " ^ err_name e)
+       | Err e -> "D err " ^ err_name e)
   | "S" :: c :: sets ->
       let c = int_of_string c in
       let s = apply_sets c (fresh cs (z_of_int c)) sets in
